@@ -37,8 +37,11 @@ def gen_history(rnd, length):
             h.append(dict(op="setup", date=d))
         elif k < 0.62:
             h.append(dict(op="simulate", date=d, seed=rnd.randrange(10**6), n_hh=rnd.choice([3, 6]), targets=rnd.choice(TARGET_SETS),
-                          rounding=rnd.random() < 0.7, as_dict=rnd.random() < 0.4, int_as_float=rnd.random() < 0.4))
-        elif k < 0.78:
+                          rounding=rnd.random() < 0.7, as_dict=rnd.random() < 0.4, int_as_float=rnd.random() < 0.4,
+                          replace=rnd.choice([None, None, "kindergeld_m", "elterngeld_m", "ges_rentenv_beitr_arbeitnehmer_m"])))
+        elif k < 0.68:
+            h.append(dict(op="inplace", date=d, group=rnd.choice(["sozialv_beitr", "wohngeld", "arbeitsl_geld_2", "kinderzuschl", "ges_rente", "eink_st"])))
+        elif k < 0.80:
             h.append(dict(op="reform", date=d, seed=rnd.randrange(10**6), n_hh=3, targets=rnd.choice(TARGET_SETS), rounding=True,
                           group=rnd.choice(["eink_st", "kindergeld", "sozialv_beitr", "arbeitsl_geld_2", "wohngeld"]), as_dict=False, int_as_float=False))
         else:
@@ -56,7 +59,14 @@ def run(ctx, res):
     hists.insert(0, [dict(op="simulate", date="2024-01-01", seed=5, n_hh=6, targets=["ges_pflegev_beitr_arbeitnehmer_m", "ges_rente_m"], rounding=True, as_dict=True, int_as_float=True),
                      dict(op="rewrite", function=RISKY_REWRITES[0]), dict(op="rewrite", function=RISKY_REWRITES[1]),
                      dict(op="setup", date="2024-01-01"),
-                     dict(op="simulate", date="2024-01-01", seed=5, n_hh=6, targets=["ges_pflegev_beitr_arbeitnehmer_m", "ges_rente_m"], rounding=True, as_dict=True, int_as_float=True)])
+                     dict(op="simulate", date="2024-01-01", seed=5, n_hh=6, targets=["ges_pflegev_beitr_arbeitnehmer_m", "ges_rente_m"], rounding=True, as_dict=True, int_as_float=True),
+                     dict(op="inplace", date="2024-01-01", group="sozialv_beitr"), dict(op="inplace", date="2024-01-01", group="wohngeld"),
+                     dict(op="setup", date="2024-01-01"),
+                     dict(op="simulate", date="2024-01-01", seed=5, n_hh=6, targets=["ges_pflegev_beitr_arbeitnehmer_m", "wohngeld_m_wthh"], rounding=True, as_dict=False, int_as_float=False),
+                     dict(op="setup", date="2023-07-01"),
+                     dict(op="simulate", date="2023-07-01", seed=6, n_hh=4, targets=["kindergeld_m", "elterngeld_m"], rounding=True, as_dict=False, int_as_float=False, replace="kindergeld_m"),
+                     dict(op="simulate", date="2023-07-01", seed=6, n_hh=4, targets=["kindergeld_m", "elterngeld_m"], rounding=True, as_dict=False, int_as_float=False, replace="elterngeld_m"),
+                     dict(op="simulate", date="2023-07-01", seed=6, n_hh=4, targets=["kindergeld_m", "elterngeld_m"], rounding=True, as_dict=False, int_as_float=False)])
     stats = dict(histories=len(hists), calls=0, compared_with_fresh_process=0, rewrites=0, errors={})
     with cf.ThreadPoolExecutor(max_workers=6) as ex:
         joint = list(ex.map(run_history, hists))
@@ -64,7 +74,7 @@ def run(ctx, res):
         todo = []
         for hi, h in enumerate(hists):
             for oi, op in enumerate(h):
-                if op["op"] in ("simulate", "reform", "setup"):
+                if op["op"] in ("simulate", "reform", "setup", "inplace"):
                     key = json.dumps(op, sort_keys=True)
                     if key not in singles:
                         singles[key] = None
@@ -99,6 +109,37 @@ def run(ctx, res):
                 res.add_violation("caller:functions-modified", "compute_taxes_and_transfers modified the caller's function collection", dict(kind="functions-modified", call=op), True)
             if r.get("module_bindings_changed"):
                 res.add_violation("call:module-rebound", f"{op['op']} rebinds module-level names: {r['module_bindings_changed'][:3]}", dict(kind="rebound", call=op, observation=r), True)
+    # directed: every rounding specification with an additive part (to_add_after_rounding) — simulate twice with the SAME
+    # parameter object: the caller's parameters are untouched and the two results agree
+    import copy
+    import engine
+    import modelio as M
+    import popgen
+    stats["additive_rounding_specs"] = 0
+    for iso in ["2002-01-01", "2003-06-01", "2024-01-01"]:
+        o = impl.ordinal(iso)
+        try:
+            p0, f0 = impl.env(o)
+        except Exception:  # noqa: BLE001
+            continue
+        params = copy.deepcopy(p0)
+        for g, grp in params.items():
+            for name, spec in (grp.get("rounding", {}) or {}).items() if isinstance(grp, dict) else []:
+                if isinstance(spec, dict) and spec.get("to_add_after_rounding"):
+                    df = popgen.to_frame(popgen.population(rnd, int(iso[:4]), 4, id_style="dense"))
+                    before = repr(M.canon_py(params[g]))
+                    try:
+                        o1, _ = engine.simulate(df, o, targets=[name], params=params, functions=f0)
+                        o2, _ = engine.simulate(df, o, targets=[name], params=params, functions=f0)
+                    except Exception as ex:  # noqa: BLE001
+                        stats["errors"][f"{iso}:{name}:{type(ex).__name__}"] = 1
+                        continue
+                    stats["additive_rounding_specs"] += 1
+                    if repr(M.canon_py(params[g])) != before:
+                        res.add_violation("caller:params-modified", f"simulating {name} on {iso} (rounding with an additive part) modified the caller's parameters: "
+                                          f"params['{g}']['rounding']['{name}'] is now {params[g]['rounding'].get(name)}", dict(kind="params-modified", date=iso, rule=name), True)
+                    elif list(o1[name]) != list(o2[name]):
+                        res.add_violation("history:repeat", f"two identical calls for {name} on {iso} give different results", dict(kind="history", date=iso, rule=name), True)
     # determinism: the same history twice
     again = run_history(hists[1])
     if [x.get("digest") for x in again] != [x.get("digest") for x in joint[1]]:
